@@ -1,10 +1,15 @@
 (** Abstract data: what resolvers return, pre-resolved.  An object is a record of field outcomes keyed by
     "field" or "field(args)"; a union value is the object of its one member (one-hot) or [VNull]; nil
     pointers, nil slices and invalid values are [VNull]. Scalars are already unwrapped to JSON. *)
-From Coq Require Import List String Bool Arith.
+From Coq Require Import List String Bool Arith ZArith.
 From Thunder Require Import Lib.Json.
 Import ListNotations.
 Open Scope string_scope.
+
+(** Scalars after unwrapping (enums are already mapped to their names). *)
+Inductive leaf : Type := LBool (b : bool) | LNum (z : Z) | LStr (s : string).
+Definition leaf_json (l : leaf) : json :=
+  match l with LBool b => JBool b | LNum z => JNum z | LStr s => JStr s end.
 
 (** How a resolver fails: plain error, graphql.SafeError, WrapAsSafeError, panic; [EClient] is a
     graphql.ClientError raised by the executor itself (bad directive). *)
@@ -32,7 +37,7 @@ Arguments OFail {V} e.
 
 Inductive value : Type :=
 | VNull
-| VLeaf (j : json)
+| VLeaf (l : leaf)
 | VList (l : list value)
 | VObj (tname : string) (fields : list (string * outcome value)).
 
